@@ -390,7 +390,8 @@ def r4(ctx, F, bs):
             # the recorded side must be the side copied from (guarded by the same contains_key edge)
             sides = fp_side(val_o)
             src_side = None
-            cands = {src[1] for cb, ct, src, dst in copies if 'DeleteVsModify' in bs.arm_of(cb) and (cfg.dominates(cb, ib) or cfg.can_reach(cb, ib))}
+            # (a copy from a local donor file - C02.R4 judges those - says nothing about which SIDE is restored)
+            cands = {src[1] for cb, ct, src, dst in copies if 'DeleteVsModify' in bs.arm_of(cb) and src[0] != 'other' and (cfg.dominates(cb, ib) or cfg.can_reach(cb, ib))}
             if len(cands) == 1:
                 src_side = list(cands)[0]
             ok = at_rel and len(sides) == 1 and list(sides)[0] == src_side
